@@ -23,7 +23,7 @@ import os
 import random
 import warnings
 from concurrent.futures import ThreadPoolExecutor
-from datetime import timedelta
+from datetime import datetime, timedelta
 
 from .common import Report, jhash
 from .tlc import run_tlc, require_ok
@@ -289,6 +289,31 @@ def compare_analysis(sim, ana, stats=None):
                 want = np.datetime64(start + timedelta(seconds=round(ana["dt"][k] * unit * 60)))
                 if not dts2[k] == want:
                     return _mm("datetimes_array", "value", str(want), str(dts2[k]), period=k, period_minutes=T * unit)
+
+        # a timezone-aware start: entry k is the wall clock of the start + (k-1) * T, whatever kind of tzinfo it is - pytz (fixed offset once localised), zoneinfo and dateutil (offset
+        # computed from the wall time), fixed UTC offsets - and also when the simulated window contains a change of the
+        # UTC offset (Los Angeles, 8 March 2020 02:00; 1 November 2020 02:00)
+        import pytz
+        from zoneinfo import ZoneInfo
+        from dateutil import tz as du_tz
+        from datetime import timezone
+        la = "America/Los_Angeles"
+        for start in (pytz.timezone(la).localize(datetime(2020, 3, 8, 0, 45)),
+                      datetime(2020, 3, 8, 1, 15, tzinfo=ZoneInfo(la)), datetime(2020, 11, 1, 0, 45, tzinfo=ZoneInfo(la)),
+                      datetime(2020, 3, 8, 1, 30, tzinfo=du_tz.gettz(la)),
+                      datetime(2020, 3, 8, 1, 30, tzinfo=timezone(timedelta(hours=-8)))):
+            P = 30
+            sim2 = _plain_run(t, P, start)
+            dts2 = np.asarray(an.datetimes_array(sim2))
+            if dts2.ndim != 1 or dts2.shape[0] != t:
+                return _mm("datetimes_array", "length", t, list(dts2.shape), start=str(start))
+            for k in range(t):
+                # (documented: "timezone information is not included with the datetime array" - the entries are the wall
+                # clock of the start plus whole periods)
+                want = np.datetime64(start.replace(tzinfo=None) + timedelta(minutes=P * k))
+                if not dts2[k] == want:
+                    return _mm("datetimes_array", "value", str(want), str(dts2[k]), period=k, start=str(start),
+                               tz=type(start.tzinfo).__name__)
 
     # ---- energy_cost, demand_charge -----------------------------------------------------------------------
     tariff = StubTariff(ana["price"], ana["demandRate"])
